@@ -24,7 +24,7 @@ DText           == [d |-> "text"]
 DBytes          == [d |-> "bytes", n |-> -1]
 DCStr           == [d |-> "cstr"]                    \* bytes with a trailing nul on the wire
 DOpt(e)         == [d |-> "opt", e |-> e]
-DVar(alts)      == [d |-> "var", alts |-> alts]      \* [index, content] as a 2-element array
+DVar(alts)      == [d |-> "var", alts |-> alts, lax |-> FALSE]      \* [index, content] as a 2-element array
 DSeq(e)         == [d |-> "seq", e |-> e, unordered |-> FALSE, n |-> -1, set |-> FALSE]
 DSet(e)         == [d |-> "seq", e |-> e, unordered |-> FALSE, n |-> -1, set |-> TRUE]    \* BTreeSet: ascending, no duplicates
 DArr(e, n)      == [d |-> "seq", e |-> e, unordered |-> FALSE, n |-> n, set |-> FALSE]   \* [T; N]: exactly N elements
@@ -43,7 +43,8 @@ DTagged(n, e)   == [d |-> "tagged", n |-> n, e |-> e]
 U8 == DInt("u8")   U16 == DInt("u16")   U32 == DInt("u32")   U64 == DInt("u64")
 I8 == DInt("i8")   I16 == DInt("i16")   I32 == DInt("i32")   I64 == DInt("i64")   IntD == DInt("int")
 DResult(a, b) == DVar(<<a, b>>)
-DBound(e)     == DVar(<<e, e, DUnit>>)
+\* (Bound::Unbounded is read like a derived unit variant: whatever stands in the content position is skipped)
+DBound(e)     == [d |-> "var", alts |-> <<e, e, DUnit>>, lax |-> TRUE]
 DIpv4   == DBytesN(4)
 DIpv6   == DBytesN(16)
 DIpAddr == DVar(<<DIpv4, DIpv6>>)
